@@ -13,7 +13,8 @@
 // the main thread proceeds only when the helper has registered its sync_awaiter, and waits for the
 // helper to return right after the action that wakes it), and next_ready() ("poll").
 //
-// header: {"min":n,"max":n (99 = unlimited),"wake":"fn"|"handle","single":"rvalue"|"lvalue"|"range"}
+// header: {"min":n,"max":n (99 = unlimited),"wake":"fn"|"handle","single":"rvalue"|"lvalue"|"range",
+//          "block":"bool"|"iter" (blocking next() as `bool(sub.next())` or through begin()/++ of the iterator)}
 // actions: SubscribeRecent(s,mode) SubscribeAt(s,pos,mode) SubscribeCopy(c,o) Leave(s) Ready(s)
 //          Subscribe(s) Fetch(s) Poll(s) NextWhole(s,style) PushCS(n) Close(how) KickCS(s,via) KickGone
 //          (Wake / WFetch steps are merged into the step that caused them)
@@ -174,7 +175,7 @@ struct World {
     std::vector<std::unique_ptr<Sub>> graveyard;     // records of destroyed subscribers (storage stays reserved)
     std::map<std::size_t, int> slot_last_left;       // slot -> identity of the subscriber that left it last
     const SubT *stale = nullptr;                     // pointer of the subscriber destroyed last
-    std::string wake_style = "fn", single = "rvalue";
+    std::string wake_style = "fn", single = "rvalue", block_form = "bool";
     int npub = 0;
     bool hung = false;
 
@@ -265,8 +266,16 @@ struct World {
     void next_block(Sub &s) {
         s.done.store(0);
         Sub *sp = &s;
-        s.th = std::thread([sp] {
-            bool r = sp->obj->next();
+        bool iter = block_form == "iter";
+        s.th = std::thread([sp, iter] {
+            bool r;
+            if (iter) {
+                // what `for (auto &x: sub)` does: begin() / operator++ evaluate bool(next())
+                if (sp->recv.empty()) { auto it = sp->obj->begin(); r = it != sp->obj->end(); }
+                else { SubT::iterator it(*sp->obj, true); ++it; r = it != sp->obj->end(); }
+            } else {
+                r = sp->obj->next();
+            }
             sp->bres = r;
             sp->done.store(1, std::memory_order_release);
         });
@@ -387,6 +396,7 @@ struct World {
         long long mx = sc.hdr.at("max").as_int(99);
         wake_style = sc.hdr.at("wake").as_str("fn");
         single = sc.hdr.at("single").as_str("rvalue");
+        block_form = sc.hdr.at("block").as_str("bool");
         if (mx >= 99 && mn == 1) pub.reset(new Pub());
         else pub.reset(new Pub(mx >= 99 ? std::numeric_limits<std::size_t>::max() : (std::size_t) mx, mn));
         qp = pub->get_queue();
